@@ -135,7 +135,11 @@ func (dht *IpfsDHT) runLookupWithFollowup(ctx context.Context, target string, qu
 	for _, p := range queryPeers {
 		qp := p
 		go func() {
-			_, _ = queryFn(followUpCtx, qp)
+			if _, err := queryFn(followUpCtx, qp); err != nil && followUpCtx.Err() == nil {
+				// like in the lookup itself, a peer that fails to answer is
+				// removed from the routing table, unless we gave up on it
+				dht.peerStoppedDHT(qp)
+			}
 			doneCh <- struct{}{}
 		}()
 	}
